@@ -160,7 +160,7 @@ def inGetter? : String → Option InGetter
 /-- jet name → how its arguments become queries -/
 inductive Kind where
   | nullary (g : G0) | current (g : InGetter) | input (g : InGetter) | output (g : OutGetter)
-  | nullDatum | tappath | totalFee
+  | nullDatum | tappath | totalFee | checkLock (k : LockKind)
 
 def kind? (name : String) : Option Kind :=
   match name with
@@ -171,6 +171,11 @@ def kind? (name : String) : Option Kind :=
   | "script_cmr" => some (.nullary .scriptCmr) | "internal_key" => some (.nullary .internalKey)
   | "tapleaf_version" => some (.nullary .tapleafVersion) | "tx_is_final" => some (.nullary .txIsFinal)
   | "tx_lock_height" => some (.nullary .txLockHeight) | "tx_lock_time" => some (.nullary .txLockTime)
+  | "tx_lock_distance" => some (.nullary .txLockDistance)
+  | "tx_lock_duration" => some (.nullary .txLockDuration)
+  | "check_lock_height" => some (.checkLock .height) | "check_lock_time" => some (.checkLock .time)
+  | "check_lock_distance" => some (.checkLock .distance)
+  | "check_lock_duration" => some (.checkLock .duration)
   | "output_asset" => some (.output .asset) | "output_amount" => some (.output .amount)
   | "output_nonce" => some (.output .nonce) | "output_script_hash" => some (.output .scriptHash)
   | "output_is_fee" => some (.output .isFee)
@@ -193,6 +198,7 @@ def query? (k : Kind) (arg : String) : Option Query :=
   | .input g => arg.toNat?.map fun i => .input g (UInt32.ofNat i)
   | .output g => arg.toNat?.map fun i => .output g (UInt32.ofNat i)
   | .tappath => arg.toNat?.map fun i => .tappath (UInt8.ofNat i)
+  | .checkLock k => arg.toNat?.map fun x => .checkLock k x
   | .totalFee => ((hexChars arg.toList).bind mk32).map .totalFee
   | .nullDatum =>
     match arg.splitOn ":" with
